@@ -101,9 +101,9 @@ CHECKS += [
          "once (restricted by the optional filter), each trace's spans == its nodes rows with child links == its association rows; traces longer than / "
          "equal to / shorter than the batch size and off batch boundaries, interleaved ingestion order.",
          "Bounded exploration on real sqlite; the nested lazy generators are consumed in the order the real consumers use.", "DESIGN.md 4/C12"),
-    bchk("C15", "BOUNDED (never counted as proved). Every history of <= 3 runs (ingest / no ingest x unique graphs on / off) over a file-backed store: each "
-         "run terminates, keeps the store well-formed (association rows match stored spans) and reproduces the PV sequences and selected shapes of the "
-         "first run with the same flags.",
+    bchk("C15", "BOUNDED (never counted as proved). Every history of <= 3 runs (ingest / no ingest x unique graphs on / off) of the real entry point "
+         "otel_to_pv over a file-backed store, with time_buffer 0 and 1: each run terminates, keeps the store well-formed (association rows match stored "
+         "spans) and reproduces the PV sequences and selected shapes of the first run with the same flags.",
          "Bounded exploration; separate runs are emulated in one process with a fresh SQLDataHolder and engine per run on the same database file.",
          "DESIGN.md 4/C15"),
 ]
